@@ -478,7 +478,7 @@ Definition instant_passed_map (inst evc : N) : bool := bit (u16 (inst + 65536 - 
 
 Definition valid_phy_encoding (x : N) : bool := (x =? 0) || (x =? 1) || (x =? 2).
 
-Definition skds_bytes : list N := le_bytes 8 4588260409412135510.   (* 0x3fac22107855aa56: what the scripted radio answers *)
+Definition skds_bytes : list N := le_bytes 8 4588079574517394006.   (* 0x3fac22107855aa56: what the scripted radio answers *)
 Definition ivs_bytes : list N := le_bytes 4 2018915346.              (* 0x78563412 *)
 Definition toy_key : list N := [1; 128; 2; 112; 3; 96; 4; 80; 5; 64; 6; 48; 7; 32; 8; 16].
 Definition zero_key : list N := repeat 0 16.
